@@ -423,6 +423,9 @@ def main(argv):
             # external_body on the unchanged tree as well and carry no label (Payload == R, Debug): nothing was ever proved through them
             if not f.get("labels") and not f.get("safety") and not (f["external_body"] and not f.get("stubbed")) and k not in unreferenced_new: ps |= set(SHARED)
             if pid in ps: out_of_reach.append((k, stub_reason.get(k, "")))
+            # panic freedom (C09) is an obligation of EVERY function reachable from a decrypt / verify / parse entry point: a callee the
+            # verifier cannot take carries it directly, named in a contract or not
+            elif k in cone.get(pid, ()) and pid in CONFIG.get("safety_props", ["C09"]) and k not in unreferenced_new: out_of_reach.append((k, stub_reason.get(k, "")))
             elif k in cone.get(pid, ()): out_of_reach_cone.append((k, stub_reason.get(k, "")))
         kani_info = None
         if pid in KANI_PROPS:
